@@ -768,22 +768,41 @@ static sexp analyze_seq (sexp ctx, sexp ls, int depth, int defok) {
 }
 
 static sexp analyze_macro_once (sexp ctx, sexp x, sexp op, int depth) {
-  sexp res;
-  sexp_gc_var1(tmp);
-  sexp_gc_preserve1(ctx, tmp);
+  sexp res, err_cell;
+  sexp_gc_var2(tmp, handler);
+  sexp_gc_preserve2(ctx, tmp, handler);
   tmp = sexp_cons(ctx, sexp_macro_env(op), SEXP_NULL);
   tmp = sexp_cons(ctx, sexp_context_env(ctx), tmp);
   tmp = sexp_cons(ctx, x, tmp);
   res = sexp_exceptionp(tmp) ? tmp : sexp_make_child_context(ctx, sexp_context_lambda(ctx));
-  if (!sexp_exceptionp(res) && !sexp_exceptionp(sexp_context_exception(ctx)))
+  if (!sexp_exceptionp(res) && !sexp_exceptionp(sexp_context_exception(ctx))) {
+    /* The transformer runs in a nested VM.  An error it raises must come */
+    /* back here as a value and be signalled by the caller of the */
+    /* compiler: a handler of the caller that escaped from inside the */
+    /* nested VM (e.g. guard around eval) would leave this C frame behind */
+    /* and the code after the eval would run a second time when it returns. */
+    err_cell = sexp_global(ctx, SEXP_G_ERR_HANDLER);
+#if SEXP_USE_GREEN_THREADS
+    /* the handler is a thread parameter: shadow it in the child context */
+    handler = sexp_cons(ctx, err_cell, SEXP_FALSE);
+    if (!sexp_exceptionp(handler))
+      handler = sexp_cons(ctx, handler, sexp_context_params(res));
+    if (!sexp_exceptionp(handler))
+      sexp_context_params(res) = handler;
+#endif
+    err_cell = sexp_opcodep(err_cell) ? sexp_opcode_data(err_cell) : SEXP_FALSE;
+    handler = sexp_pairp(err_cell) ? sexp_cdr(err_cell) : SEXP_FALSE;
+    if (sexp_pairp(err_cell)) sexp_cdr(err_cell) = SEXP_FALSE;
     res = sexp_apply(res, sexp_macro_proc(op), tmp);
+    if (sexp_pairp(err_cell)) sexp_cdr(err_cell) = handler;
+  }
   if (sexp_pairp(sexp_car(tmp)) && sexp_pair_source(sexp_car(tmp))) {
     if (sexp_pairp(res))
       sexp_pair_source(res) = sexp_pair_source(sexp_car(tmp));
     else if (sexp_exceptionp(res) && sexp_not(sexp_exception_source(x)))
       sexp_exception_source(res) = sexp_pair_source(sexp_car(tmp));
   }
-  sexp_gc_release1(ctx);
+  sexp_gc_release2(ctx);
   return res;
 }
 
